@@ -1,21 +1,18 @@
-(* Proofs about KV.Yaml.Annot (kept out of the model file). *)
-From KV Require Import Yaml.Annot.
+(* Proofs about KV.Yaml.Annot (kept out of the model file): the reader's annotation bookkeeping followed
+   by the writer's clearing is [clear_empty_annotations], at node level. *)
+From KV Require Import Yaml.Annot Yaml.FnsProofs.
 Local Open Scope list_scope.
 
 Ltac inv H := inversion H; subst; clear H.
 
+Notation MD := "metadata"%string.
+Notation AN := "annotations"%string.
+
+(* ---------- association lists ---------- *)
+
 Lemma find_field_app name (l l' : list (string * node)) :
   find_field name (l ++ l') = match find_field name l with Some v => Some v | None => find_field name l' end.
-Proof.
-  induction l as [|[k v] l IH]; cbn; auto. destruct (String.eqb k name); auto.
-Qed.
-
-Lemma remove_first_absent name (l : list (string * node)) :
-  find_field name l = None -> remove_first name l = l.
-Proof.
-  induction l as [|[k v] l IH]; cbn; auto. destruct (String.eqb k name); [discriminate|].
-  intros H. rewrite IH; auto.
-Qed.
+Proof. induction l as [|[k v] l IH]; cbn; auto. destruct (String.eqb k name); auto. Qed.
 
 Lemma remove_first_app_absent name (l l' : list (string * node)) :
   find_field name l = None -> remove_first name (l ++ l') = l ++ remove_first name l'.
@@ -24,33 +21,392 @@ Proof.
   intros H. rewrite IH; auto.
 Qed.
 
+Lemma set_first_same name kvs x : find_field name kvs = Some x -> set_first name x kvs = kvs.
+Proof.
+  induction kvs as [|[k v] t IH]; cbn; intros H; [discriminate|].
+  destruct (String.eqb k name) eqn:E; [inv H; reflexivity|rewrite IH; auto].
+Qed.
+
+Lemma rfe_absent name kvs : find_field name kvs = None -> remove_first_empty name kvs = kvs.
+Proof.
+  induction kvs as [|[k v] t IH]; cbn; intros H; [reflexivity|].
+  destruct (String.eqb k name); [discriminate|]. cbn. rewrite IH; auto.
+Qed.
+
+(* the first field of that name decides, when it is the only one *)
+Lemma rfe_found name kvs v :
+  find_field name kvs = Some v -> single_key name kvs ->
+  remove_first_empty name kvs = if content_empty v then remove_first name kvs else kvs.
+Proof.
+  unfold single_key. induction kvs as [|[k x] t IH]; cbn; intros H S; [discriminate|].
+  destruct (String.eqb k name) eqn:E.
+  - inv H. cbn. destruct (content_empty v); [reflexivity|]. rewrite rfe_absent; auto.
+  - cbn in S. rewrite E in S. cbn. rewrite IH by auto. destruct (content_empty v); reflexivity.
+Qed.
+
+Lemma rfe_app_last name kvs v :
+  find_field name kvs = None -> content_empty v = true ->
+  remove_first_empty name (kvs ++ [(name, v)]) = kvs.
+Proof.
+  induction kvs as [|[k x] t IH]; cbn; intros H C.
+  - rewrite String.eqb_refl, C. reflexivity.
+  - destruct (String.eqb k name); [discriminate|]. cbn. rewrite IH; auto.
+Qed.
+
+Lemma remove_first_set_first name y kvs : remove_first name (set_first name y kvs) = remove_first name kvs.
+Proof.
+  induction kvs as [|[k x] t IH]; cbn; auto.
+  destruct (String.eqb k name) eqn:E; cbn; rewrite E; [reflexivity|rewrite IH; reflexivity].
+Qed.
+
+Lemma single_key_set_first name y kvs : single_key name kvs -> single_key name (set_first name y kvs).
+Proof. unfold single_key. rewrite remove_first_set_first. auto. Qed.
+
+Lemma find_remove_first_single name kvs : single_key name kvs -> find_field name (remove_first name kvs) = None.
+Proof. auto. Qed.
+
+Lemma app_not_nil {A} (l : list A) x : l ++ [x] <> [].
+Proof. destruct l; discriminate. Qed.
+
+Lemma keys_absent_nil ks : keys_absent ks [].
+Proof. induction ks; cbn; auto. Qed.
+
+(* ---------- the three shapes of a settled resource ---------- *)
+
+Inductive frame :=
+| FA (kvs : list (string * node))                      (* no metadata *)
+| FB (kvs mk : list (string * node))                   (* metadata = Map mk (non-empty), no annotations *)
+| FC (kvs mk ak : list (string * node)).               (* metadata = Map mk, annotations = Map ak (non-empty) *)
+
+Definition fwf (f : frame) : Prop :=
+  match f with
+  | FA kvs => find_field MD kvs = None
+  | FB kvs mk => find_field MD kvs = Some (Map mk) /\ single_key MD kvs /\ find_field AN mk = None /\ mk <> []
+  | FC kvs mk ak => find_field MD kvs = Some (Map mk) /\ single_key MD kvs /\
+                    find_field AN mk = Some (Map ak) /\ single_key AN mk /\ ak <> []
+  end.
+
+Definition base (f : frame) : node :=
+  match f with FA kvs => Map kvs | FB kvs _ => Map kvs | FC kvs _ _ => Map kvs end.
+
+Definition base_ann (f : frame) : list (string * node) :=
+  match f with FC _ _ ak => ak | _ => [] end.
+
+(* the resource with its annotation mapping set to [l] *)
+Definition node_of (f : frame) (l : list (string * node)) : node :=
+  match f with
+  | FA kvs => Map (kvs ++ [(MD, Map [(AN, Map l)])])
+  | FB kvs mk => Map (set_first MD (Map (mk ++ [(AN, Map l)])) kvs)
+  | FC kvs mk _ => Map (set_first MD (Map (set_first AN (Map l) mk)) kvs)
+  end.
+
 Section AnnotProofs.
   Variable nonstr : string -> bool.
 
-  (* the three reader keys are absent from an annotation map *)
-  Definition no_reader_keys (akvs : list (string * node)) : Prop :=
-    find_field index_key akvs = None /\ find_field legacy_index_key akvs = None /\
-    find_field seqindent_key akvs = None.
+  Lemma quote11_ann v : quote11 nonstr (ann_value v) = ann_value v.
+  Proof. reflexivity. Qed.
 
-  (* Core of the annotation round trip, on the annotation mapping itself: setting the two index
-     annotations (as the reader does, legacy key first) and then clearing index, legacy index and
-     seqindent (as the writer does) gives the mapping back, entries and order unchanged. *)
-  Lemma annotation_map_roundtrip akvs v :
-    no_reader_keys akvs ->
-    (do m1 <- set_field nonstr legacy_index_key (Some (ann_value v)) false (Map akvs);
-     do m2 <- set_field nonstr index_key (Some (ann_value v)) false m1;
-     do m3 <- clear_field index_key m2;
-     do m4 <- clear_field legacy_index_key m3;
-     clear_field seqindent_key m4) = Ok (Map akvs).
+  (* ---- clear_empty_annotations on the shapes ---- *)
+
+  Lemma cea_base f : fwf f -> clear_empty_annotations (base f) = Ok (base f).
   Proof.
-    intros (Hi & Hl & Hs).
-    unfold set_field. cbn [ann_value is_null negb andb]. rewrite Hl. cbn [bind quote11].
-    rewrite find_field_app, Hi. cbn [find_field]. cbn [String.eqb Ascii.eqb Bool.eqb index_key legacy_index_key].
-    cbn [bind clear_field quote11].
-    rewrite <- app_assoc. rewrite remove_first_app_absent by auto.
-    cbn [remove_first app String.eqb Ascii.eqb Bool.eqb index_key legacy_index_key].
-    rewrite remove_first_app_absent by auto.
-    cbn [remove_first app String.eqb Ascii.eqb Bool.eqb index_key legacy_index_key].
-    rewrite app_nil_r. rewrite remove_first_absent by auto. reflexivity.
+    destruct f as [kvs|kvs mk|kvs mk ak]; cbn [fwf base]; unfold clear_empty_annotations.
+    - intros H. cbn [walk]. rewrite H. cbn [bind fst clear_field_if_empty]. rewrite rfe_absent; auto.
+    - intros (H & S & Ha & Hne). cbn [walk]. rewrite H. cbn [walk bind fst snd clear_field_if_empty].
+      rewrite (rfe_absent AN mk Ha). cbn [bind fst snd]. rewrite (set_first_same _ _ _ H).
+      cbn [clear_field_if_empty]. rewrite (rfe_found _ _ _ H S). destruct mk; [congruence|reflexivity].
+    - intros (H & S & Ha & Sa & Hne). cbn [walk]. rewrite H. cbn [walk bind fst snd clear_field_if_empty].
+      rewrite (rfe_found _ _ _ Ha Sa). destruct ak as [|a ak']; [congruence|]. cbn [content_empty].
+      cbn [bind fst snd]. rewrite (set_first_same _ _ _ H).
+      cbn [clear_field_if_empty]. rewrite (rfe_found _ _ _ H S). destruct mk; [discriminate|reflexivity].
+  Qed.
+
+  (* ---- generic part: a resource whose metadata and annotations mappings exist ---- *)
+
+  Definition full (K M l : list (string * node)) : Prop :=
+    find_field MD K = Some (Map M) /\ single_key MD K /\
+    find_field AN M = Some (Map l) /\ single_key AN M.
+
+  Definition ann_set (K M l' : list (string * node)) : node :=
+    Map (set_first MD (Map (set_first AN (Map l') M)) K).
+
+  Lemma full_ann_set K M l l' :
+    full K M l -> full (set_first MD (Map (set_first AN (Map l') M)) K) (set_first AN (Map l') M) l'.
+  Proof.
+    intros (H & S & Ha & Sa). repeat split.
+    - eapply find_field_set_first_same; eauto.
+    - apply single_key_set_first; auto.
+    - eapply find_field_set_first_same; eauto.
+    - apply single_key_set_first; auto.
+  Qed.
+
+  Lemma ann_set_ann_set K M l' l'' :
+    ann_set (set_first MD (Map (set_first AN (Map l') M)) K) (set_first AN (Map l') M) l'' = ann_set K M l''.
+  Proof. unfold ann_set. rewrite !set_first_set_first. reflexivity. Qed.
+
+  Lemma ann_set_same K M l : full K M l -> ann_set K M l = Map K.
+  Proof.
+    intros (H & S & Ha & Sa). unfold ann_set. rewrite (set_first_same _ _ _ Ha), (set_first_same _ _ _ H). reflexivity.
+  Qed.
+
+  Lemma find_some_not_nil name (kvs : list (string * node)) x : find_field name kvs = Some x -> kvs <> [].
+  Proof. destruct kvs; [discriminate|congruence]. Qed.
+
+  Lemma cea_full K M l : full K M l -> l <> [] -> clear_empty_annotations (Map K) = Ok (Map K).
+  Proof.
+    intros (H & S & Ha & Sa) Hne. unfold clear_empty_annotations.
+    cbn [walk]. rewrite H. cbn [walk bind fst snd clear_field_if_empty].
+    rewrite (rfe_found _ _ _ Ha Sa). destruct l as [|a l']; [congruence|]. cbn [content_empty].
+    cbn [bind fst snd]. rewrite (set_first_same _ _ _ H). cbn [clear_field_if_empty].
+    rewrite (rfe_found _ _ _ H S). pose proof (find_some_not_nil _ _ _ Ha). destruct M; [congruence|reflexivity].
+  Qed.
+
+  Lemma put_full K M l k v :
+    full K M l -> find_field k l = None ->
+    put nonstr [PKey MD; PKey AN] k (ann_value v) (Map K) = Ok (ann_set K M (l ++ [(k, ann_value v)]), Some tt).
+  Proof.
+    intros (H & S & Ha & Sa) Hk. unfold put. cbn [walk]. rewrite H. cbn [walk]. rewrite Ha.
+    cbn [walk]. unfold k_set_field, set_field. cbn [ann_value is_null negb andb]. rewrite Hk.
+    cbn [bind fst snd quote11]. reflexivity.
+  Qed.
+
+  Lemma clear_full K M l k :
+    full K M l ->
+    clear_at [PKey MD; PKey AN] k (Map K) = Ok (ann_set K M (remove_first k l), Some tt).
+  Proof.
+    intros (H & S & Ha & Sa). unfold clear_at. cbn [walk]. rewrite H. cbn [walk]. rewrite Ha.
+    cbn [walk]. unfold k_clear, clear_field. cbn [bind fst snd]. reflexivity.
+  Qed.
+
+  (* ---- frame-specific part ---- *)
+
+  Lemma node_of_full f l : fwf f ->
+    exists K M, node_of f l = Map K /\ full K M l /\ forall l', ann_set K M l' = node_of f l'.
+  Proof.
+    destruct f as [kvs|kvs mk|kvs mk ak]; cbn [fwf node_of].
+    - intros H. exists (kvs ++ [(MD, Map [(AN, Map l)])]), [(AN, Map l)]. split; [reflexivity|]. split.
+      + repeat split.
+        * apply find_field_app_same; auto.
+        * unfold single_key. rewrite remove_first_app_absent by auto. cbn. rewrite app_nil_r. auto.
+      + intros l'. unfold ann_set. cbn [set_first String.eqb Ascii.eqb Bool.eqb].
+        rewrite set_first_app_same by auto. reflexivity.
+    - intros (H & S & Ha & Hne). exists (set_first MD (Map (mk ++ [(AN, Map l)])) kvs), (mk ++ [(AN, Map l)]).
+      split; [reflexivity|]. split.
+      + repeat split.
+        * eapply find_field_set_first_same; eauto.
+        * apply single_key_set_first; auto.
+        * apply find_field_app_same; auto.
+        * unfold single_key. rewrite remove_first_app_absent by auto. cbn. rewrite app_nil_r. auto.
+      + intros l'. unfold ann_set. rewrite set_first_app_same by auto. rewrite set_first_set_first. reflexivity.
+    - intros (H & S & Ha & Sa & Hne).
+      exists (set_first MD (Map (set_first AN (Map l) mk)) kvs), (set_first AN (Map l) mk).
+      split; [reflexivity|]. split.
+      + eapply full_ann_set. repeat split; eauto.
+      + intros l'. apply ann_set_ann_set.
+  Qed.
+
+  Lemma put_base f k v :
+    fwf f -> find_field k (base_ann f) = None ->
+    put nonstr [PKey MD; PKey AN] k (ann_value v) (base f) =
+    Ok (node_of f (base_ann f ++ [(k, ann_value v)]), Some tt).
+  Proof.
+    destruct f as [kvs|kvs mk|kvs mk ak]; cbn [fwf base base_ann node_of].
+    - intros H _. unfold put. cbn [walk]. rewrite H. cbn. reflexivity.
+    - intros (H & S & Ha & Hne) _. unfold put. cbn [walk]. rewrite H. cbn [walk]. rewrite Ha. cbn. reflexivity.
+    - intros (H & S & Ha & Sa & Hne) Hk.
+      rewrite (put_full kvs mk ak k v); [reflexivity| |auto]. repeat split; auto.
+  Qed.
+
+  Lemma cea_node_of_base f : fwf f -> clear_empty_annotations (node_of f (base_ann f)) = Ok (base f).
+  Proof.
+    intros Hf. pose proof (cea_base f Hf) as Hb.
+    destruct f as [kvs|kvs mk|kvs mk ak]; cbn [fwf base base_ann node_of] in *.
+    - unfold clear_empty_annotations. cbn [walk]. rewrite (find_field_app_same MD _ kvs Hf).
+      cbn [walk bind fst snd clear_field_if_empty remove_first_empty String.eqb Ascii.eqb Bool.eqb content_empty andb].
+      rewrite set_first_app_same by auto. cbn [clear_field_if_empty]. rewrite rfe_app_last; auto.
+    - destruct Hf as (H & S & Ha & Hne). unfold clear_empty_annotations. cbn [walk].
+      rewrite (find_field_set_first_same MD _ kvs _ H).
+      cbn [walk bind fst snd clear_field_if_empty]. rewrite rfe_app_last by auto.
+      cbn [bind fst snd]. rewrite set_first_set_first, (set_first_same _ _ _ H).
+      cbn [clear_field_if_empty]. rewrite (rfe_found _ _ _ H S). destruct mk; [congruence|reflexivity].
+    - destruct Hf as (H & S & Ha & Sa & Hne).
+      rewrite (set_first_same _ _ _ Ha), (set_first_same _ _ _ H). exact Hb.
+  Qed.
+
+  (* ---- single operations on the shapes ---- *)
+
+  Lemma set_annotation_base f k v :
+    fwf f -> find_field k (base_ann f) = None ->
+    set_annotation nonstr k v (base f) = Ok (node_of f (base_ann f ++ [(k, ann_value v)])).
+  Proof.
+    intros Hf Hk. unfold set_annotation. rewrite (cea_base f Hf). cbn [bind].
+    rewrite (put_base f k v Hf Hk). reflexivity.
+  Qed.
+
+  Lemma set_annotation_node f l k v :
+    fwf f -> l <> [] -> find_field k l = None ->
+    set_annotation nonstr k v (node_of f l) = Ok (node_of f (l ++ [(k, ann_value v)])).
+  Proof.
+    intros Hf Hne Hk. destruct (node_of_full f l Hf) as (K & M & E & Hfull & Hset).
+    unfold set_annotation. rewrite E, (cea_full K M l Hfull Hne). cbn [bind].
+    rewrite (put_full K M l k v Hfull Hk). cbn [bind fst]. rewrite Hset. reflexivity.
+  Qed.
+
+  Lemma clear_annotation_node f l k :
+    fwf f -> clear_annotation k (node_of f l) = Ok (node_of f (remove_first k l)).
+  Proof.
+    intros Hf. destruct (node_of_full f l Hf) as (K & M & E & Hfull & Hset).
+    unfold clear_annotation. rewrite E, (clear_full K M l k Hfull). cbn [bind fst]. rewrite Hset. reflexivity.
+  Qed.
+
+  Lemma set_annotation_via_cea k v n b :
+    clear_empty_annotations n = Ok b -> clear_empty_annotations b = Ok b ->
+    set_annotation nonstr k v n = set_annotation nonstr k v b.
+  Proof. intros H1 H2. unfold set_annotation. rewrite H1, H2. reflexivity. Qed.
+
+  (* ---- every well-formed resource settles into one of the shapes ---- *)
+
+  Lemma cea_settled ks n :
+    res_wf ks n ->
+    exists f, fwf f /\ clear_empty_annotations n = Ok (base f) /\ keys_absent ks (base_ann f).
+  Proof.
+    destruct n as [t s v|kvs|es]; cbn [res_wf]; try contradiction.
+    destruct (find_field MD kvs) as [[t s v|mk|es]|] eqn:H; try contradiction.
+    - intros (S & Hann).
+      destruct (find_field AN mk) as [[t s v|ak|es]|] eqn:Ha; try contradiction.
+      + destruct Hann as (Sa & Hks).
+        destruct ak as [|a ak'].
+        * (* empty annotations: removed; metadata may become empty too *)
+          unfold clear_empty_annotations. cbn [walk]. rewrite H. cbn [walk bind fst snd clear_field_if_empty].
+          rewrite (rfe_found _ _ _ Ha Sa). cbn [content_empty bind fst snd clear_field_if_empty].
+          assert (Hm : find_field MD (set_first MD (Map (remove_first AN mk)) kvs) = Some (Map (remove_first AN mk)))
+            by (eapply find_field_set_first_same; eauto).
+          rewrite (rfe_found _ _ _ Hm (single_key_set_first _ _ _ S)).
+          assert (Ha1 : find_field AN (remove_first AN mk) = None) by exact Sa.
+          destruct (remove_first AN mk) as [|e mk'].
+          -- cbn [content_empty]. rewrite remove_first_set_first.
+             exists (FA (remove_first MD kvs)). cbn [fwf base base_ann]. repeat split; auto.
+          -- cbn [content_empty].
+             exists (FB (set_first MD (Map (e :: mk')) kvs) (e :: mk')).
+             cbn [fwf base base_ann].
+             repeat split; auto using keys_absent_nil, single_key_set_first; discriminate.
+        * exists (FC kvs mk (a :: ak')). cbn [fwf base base_ann].
+          assert (Hf : fwf (FC kvs mk (a :: ak'))) by (cbn; repeat split; auto; discriminate).
+          repeat split; auto; try discriminate. apply (cea_base _ Hf).
+      + (* no annotations *)
+        destruct mk as [|e mk'] eqn:Em.
+        * unfold clear_empty_annotations. cbn [walk]. rewrite H. cbn [walk bind fst snd clear_field_if_empty remove_first_empty].
+          rewrite (set_first_same _ _ _ H). cbn [clear_field_if_empty]. rewrite (rfe_found _ _ _ H S).
+          cbn [content_empty]. exists (FA (remove_first MD kvs)). cbn [fwf base base_ann]. repeat split; auto.
+          apply keys_absent_nil.
+        * rewrite <- Em in *. exists (FB kvs mk).
+          assert (Hf : fwf (FB kvs mk)) by (cbn; repeat split; auto; subst; discriminate).
+          repeat split; auto; try (subst; discriminate). apply (cea_base _ Hf).
+          apply keys_absent_nil.
+    - intros _. exists (FA kvs). assert (Hf : fwf (FA kvs)) by exact H.
+      repeat split; auto. apply (cea_base _ Hf). apply keys_absent_nil.
+  Qed.
+
+  Lemma fwf_res_wf ks f : fwf f -> keys_absent ks (base_ann f) -> res_wf ks (base f).
+  Proof.
+    destruct f as [kvs|kvs mk|kvs mk ak]; cbn [fwf base base_ann res_wf].
+    - intros H _. rewrite H. exact I.
+    - intros (H & S & Ha & Hne) _. rewrite H, Ha. auto.
+    - intros (H & S & Ha & Sa & Hne) Hk. rewrite H, Ha. auto.
+  Qed.
+
+  (* ---- the round trips ---- *)
+
+  Ltac absent_app Hk :=
+    rewrite ?find_field_app; repeat (rewrite Hk || cbn [find_field String.eqb Ascii.eqb Bool.eqb]); reflexivity.
+
+  Theorem rt_node_is_cea i n :
+    res_wf reader_keys n -> rt_node nonstr i n = clear_empty_annotations n.
+  Proof.
+    intros Hw. destruct (cea_settled _ _ Hw) as (f & Hf & Hc & Hi & Hl & Hs & _).
+    pose proof (cea_base f Hf) as Hb.
+    unfold rt_node, read_set. rewrite (set_annotation_via_cea _ _ _ _ Hc Hb).
+    rewrite (set_annotation_base f _ _ Hf Hl). cbn [bind].
+    rewrite set_annotation_node; auto using app_not_nil; [|rewrite find_field_app, Hi; reflexivity].
+    cbn [bind]. unfold write_clear.
+    repeat (rewrite clear_annotation_node by auto; cbn [bind]).
+    rewrite <- !app_assoc. cbn [app].
+    repeat (rewrite remove_first_app_absent by auto;
+            cbn [remove_first String.eqb Ascii.eqb Bool.eqb index_key legacy_index_key seqindent_key]).
+    rewrite app_nil_r.
+    rewrite cea_node_of_base by auto. symmetry. exact Hc.
+  Qed.
+
+  Theorem pkg_rt_node_is_cea i path n :
+    res_wf pkg_reader_keys n -> pkg_rt_node nonstr i path n = clear_empty_annotations n.
+  Proof.
+    intros Hw. destruct (cea_settled _ _ Hw) as (f & Hf & Hc & Hi & Hl & Hs & Hp & Hlp & _).
+    pose proof (cea_base f Hf) as Hb.
+    unfold pkg_rt_node, pkg_read_set. cbn [set_all].
+    rewrite (set_annotation_via_cea _ _ _ _ Hc Hb).
+    rewrite (set_annotation_base f _ _ Hf Hl). cbn [bind].
+    rewrite set_annotation_node; auto using app_not_nil; [|rewrite find_field_app, Hlp; reflexivity].
+    cbn [bind].
+    rewrite set_annotation_node; auto using app_not_nil; [|rewrite !find_field_app, Hi; reflexivity].
+    cbn [bind].
+    rewrite set_annotation_node; auto using app_not_nil; [|rewrite !find_field_app, Hp; reflexivity].
+    cbn [bind]. unfold pkg_write_clear. cbn [clear_all].
+    repeat (rewrite clear_annotation_node by auto; cbn [bind]).
+    rewrite <- !app_assoc. cbn [app].
+    repeat (rewrite remove_first_app_absent by auto;
+            cbn [remove_first String.eqb Ascii.eqb Bool.eqb index_key legacy_index_key seqindent_key path_key legacy_path_key]).
+    rewrite app_nil_r.
+    rewrite cea_node_of_base by auto. symmetry. exact Hc.
+  Qed.
+
+  (* the settled form is again a well-formed resource, and settling it again changes nothing *)
+  Lemma cea_idempotent ks n n1 :
+    res_wf ks n -> clear_empty_annotations n = Ok n1 ->
+    res_wf ks n1 /\ clear_empty_annotations n1 = Ok n1.
+  Proof.
+    intros Hw H. destruct (cea_settled _ _ Hw) as (f & Hf & Hc & Hk).
+    rewrite Hc in H. inv H. split; [apply fwf_res_wf; auto|apply cea_base; auto].
+  Qed.
+
+  Lemma cea_total ks n : res_wf ks n -> exists n1, clear_empty_annotations n = Ok n1.
+  Proof. intros Hw. destruct (cea_settled _ _ Hw) as (f & _ & Hc & _). eauto. Qed.
+
+  (* reader then writer, twice = once (node level; the index may differ between the two trips) *)
+  Theorem rt_node_idempotent i j n n1 :
+    res_wf reader_keys n -> rt_node nonstr i n = Ok n1 -> rt_node nonstr j n1 = Ok n1.
+  Proof.
+    intros Hw H. rewrite rt_node_is_cea in H by auto.
+    destruct (cea_idempotent _ _ _ Hw H) as [Hw1 H1]. rewrite rt_node_is_cea by auto. exact H1.
+  Qed.
+
+  Theorem pkg_rt_node_idempotent i j p q n n1 :
+    res_wf pkg_reader_keys n -> pkg_rt_node nonstr i p n = Ok n1 -> pkg_rt_node nonstr j q n1 = Ok n1.
+  Proof.
+    intros Hw H. rewrite pkg_rt_node_is_cea in H by auto.
+    destruct (cea_idempotent _ _ _ Hw H) as [Hw1 H1]. rewrite pkg_rt_node_is_cea by auto. exact H1.
+  Qed.
+
+  (* a resource without metadata, or with non-empty annotations, comes back exactly *)
+  Corollary rt_node_identity_no_metadata i kvs :
+    find_field MD kvs = None -> rt_node nonstr i (Map kvs) = Ok (Map kvs).
+  Proof.
+    intros H. rewrite rt_node_is_cea by (cbn; rewrite H; exact I).
+    apply (cea_base (FA kvs)). exact H.
   Qed.
 End AnnotProofs.
+
+(* non-vacuity: concrete resources meeting the hypotheses *)
+Module AnnotExamples.
+  Definition ns (_ : string) := false.
+  Definition r1 : node := Map [("kind", Scalar TStr SPlain "ConfigMap")].
+  Definition r2 : node := Map [("kind", Scalar TStr SPlain "K");
+                               ("metadata", Map [("name", Scalar TStr SPlain "a"); ("annotations", Map [("keep", Scalar TStr SPlain "me")])])].
+  Definition r3 : node := Map [("metadata", Map [("annotations", Map [])])].
+  Example wf1 : res_wf reader_keys r1. Proof. exact I. Qed.
+  Example wf2 : res_wf reader_keys r2. Proof. cbn. repeat split. Qed.
+  Example wf3 : res_wf reader_keys r3. Proof. cbn. repeat split. Qed.
+  Example rt1 : rt_node ns 0 r1 = Ok r1. Proof. reflexivity. Qed.
+  Example rt2 : rt_node ns 5 r2 = Ok r2. Proof. reflexivity. Qed.
+  Example rt3 : rt_node ns 0 r3 = Ok (Map []). Proof. reflexivity. Qed.
+  Example read2 : exists n, read_set ns 5 r2 = Ok n /\ n <> r2. Proof. eexists; split; [reflexivity|discriminate]. Qed.
+End AnnotExamples.
